@@ -829,7 +829,7 @@ def parse(text: BytesIO, props: list[str], lists: list[str] = None, objects: lis
             elif objects is not None and event == "start_map" and prefix in objects:
                 in_object = prefix
                 current_object = {}
-            elif in_object and event in ["boolean", "integer", "double", "number", "string"]:
+            elif in_object and event in ["boolean", "integer", "double", "number", "string", "null"]:
                 current_object[prefix[len(in_object) + 1 :]] = value
             # found all necessary properties
             if (
